@@ -222,6 +222,105 @@ def ob_batch_eval(tier="quick"):
     return explore(body, {"budget_s": 300, "max_depth": 2000, "max_failures": 2})
 
 
+class HExpr(Expr):
+    """a Z3 term in a batch: hash() is Z3_get_ast_hash (32 bits: two different terms may share it - by choice per path)"""
+    def __init__(self, name, h):
+        super().__init__(name)
+        self.h = h
+
+    def __hash__(self):
+        return self.h
+
+
+def ob_batch_eval_tuple(tier="quick"):
+    """the result construction of the real _batch_eval for a batch of several terms (and literals): each result tuple holds, position by
+    position, the value THE MODEL gives to THAT term (literals unchanged) - also when two different terms of the batch have the same Z3 hash"""
+    ns = _ns()
+    BZ = ns["BackendZ3"]
+    proxies.set_iw(12)
+
+    def body(c):
+        collide = c.choose([True, True], "the-two-terms-share-their-z3-hash") == 1
+        e1, e2 = HExpr("e1", 11), HExpr("e2", 11 if collide else 12)
+        same_term_twice = c.choose([True, True], "batch-repeats-a-term") == 1
+        exprs = [e1, e2, 7] + ([e1] if same_term_twice else [])
+        vals = {"e1": SymInt.fresh("v1", 0, 3), "e2": SymInt.fresh("v2", 0, 3)}
+        solver = GhostSolver()
+        solver.push()
+        b = object.__new__(BZ)
+        calls = {"n": 0}
+
+        def sat_contract(s, extra, occasion):
+            calls["n"] += 1
+            return calls["n"] == 1          # exactly one model
+
+        ns["z3_solver_sat"] = sat_contract
+        try:
+            BZ._primitive_from_model = lambda self, model, expr: vals[expr.name]        # contract: the model's value of that term
+            BZ._generic_model = lambda self, m: dict(vals)
+            try:
+                object.__setattr__(b, "solve_count", 0)
+            except Exception:  # noqa
+                pass
+            try:
+                res = ns["__batch_eval_raw__"](b, exprs, 1, extra_constraints=(), solver=solver, model_callback=None)
+            except (PathEnd, Undecided):
+                raise
+            except Exception as ex:  # noqa
+                import traceback
+                c.fail("_batch_eval[tuple]/raises", f"{type(ex).__name__}: {ex} {traceback.format_exc()[-300:]}", kind="raises")
+                return "raised"
+        finally:
+            ns["z3_solver_sat"] = ns["__real_z3_solver_sat__"]
+        c.n_vcs += 1
+        if len(res) != 1 or len(res[0]) != len(exprs):
+            c.fail("_batch_eval[tuple]/shape", f"{len(res)} results, first of length {len(res[0]) if res else None} for {len(exprs)} expressions")
+            return "shape"
+        for pos, (x, got) in enumerate(zip(exprs, res[0])):
+            want = vals[x.name] if isinstance(x, HExpr) else x
+            if isinstance(want, SymInt):
+                ok = isinstance(got, SymInt) and got is want
+                c.check("_batch_eval[tuple]/position-holds-the-models-value-of-that-term", proxies._bv(got) == proxies._bv(want) if isinstance(got, (SymInt, int)) else False,
+                        f"position {pos} (term {x.name}) holds the value of another term")
+            elif got != want:
+                c.fail("_batch_eval[tuple]/literal-unchanged", f"position {pos}: literal {want!r} became {got!r}")
+        return f"collide={collide}"
+
+    BZ_batch = BZ.__dict__["_batch_eval"]
+    raw = BZ_batch
+    while getattr(raw, "__closure__", None):
+        inner = [cell.cell_contents for cell in raw.__closure__ if callable(cell.cell_contents)]
+        if not inner:
+            break
+        raw = inner[0]
+    ns["__batch_eval_raw__"] = raw
+    ns.setdefault("__real_z3_solver_sat__", ns["z3_solver_sat"])
+    return explore(body, {"budget_s": 120, "replay": replay_batch_collision})
+
+
+def replay_batch_collision(failure=None):
+    """native: two different terms x + i, x + j with the same Z3 hash in one batch"""
+    import claripy
+    x = claripy.BVS("kf_batch_x", 64, explicit_name=True)
+    zb = claripy.backends.z3
+    seen, pair = {}, None
+    for i in range(200000):
+        h = hash(zb.convert(x + i))
+        if h in seen:
+            pair = (seen[h], i)
+            break
+        seen[h] = i
+    if pair is None:
+        return {"reproduced": False, "text": "no two candidate terms share a Z3 hash"}
+    i, j = pair
+    s = claripy.SolverCacheless()
+    s.add(claripy.ULT(x, 4))
+    res = s.batch_eval([x + i, x + j], 8)
+    bad = [t for t in res if (t[1] - t[0]) % (1 << 64) != (j - i)]
+    return {"reproduced": bool(bad), "text": f"SolverCacheless: add(x <u 4); batch_eval([x + {i}, x + {j}], 8) [the two terms share their Z3 hash] = {sorted(res)}"
+            + (f": {bad[0]} is realised by no model" if bad else ": every tuple is realised by a model")}
+
+
 def ob_extrema(w=3, tier="quick"):
     ns = _ns()
     BZ = ns["BackendZ3"]
